@@ -194,4 +194,6 @@ def synth(text):
     o = name_wire(owner)
     if o is None:
         raise Refused("name too long")
+    if len(rd) > 65535:
+        raise Refused("data longer than a 16-bit length can say")
     return o + t.to_bytes(2, "big") + b"\x00\x01" + ttl.to_bytes(4, "big") + len(rd).to_bytes(2, "big") + rd
